@@ -172,8 +172,10 @@ func famC01(e *emitter, g *gen.G, thorough bool) {
 	if thorough {
 		nrand = 120
 		lens = nil
-		for i := 0; i <= 600; i++ {
-			lens = append(lens, i)
+		for i := 0; i <= 600; i++ { // every length up to 320 and around the second wrap point, every 4th beyond
+			if i <= 320 || i%4 == 0 || (i >= 508 && i <= 520) || i >= 596 {
+				lens = append(lens, i)
+			}
 		}
 	}
 	for _, z := range zooTypes {
